@@ -62,6 +62,7 @@ template <class T> struct PoolT {
                 else {
                     static const T sub_text[1] = {T(0)};
                     if (cb.c_str(sub_text) != (n ? p : sub_text)) bad = "!c_str-substitute";
+                    else if (cb.view().data() != p || cb.view().size() != n || cb.view(0).size() != n || (n >= 2 && (cb.view(1).data() != p + 1 || cb.view(1).size() != n - 1 || cb.view(1, 1).size() != 1))) bad = "!view";
                     for (size_t i = 0; i < n && !bad; ++i) if (&b->at(i) != p + i || &cb.at(i) != p + i || &(*b)[i] != p + i || &cb[i] != p + i) bad = "!at";
                     if (!bad) {
                         for (size_t i : {n, n + 1, (size_t)-1}) {
